@@ -21,9 +21,23 @@ def State.getLock (st : State) (id : String) : Lock := ((st.locks.find? (·.1 ==
 def State.setLock (st : State) (id : String) (l : Lock) : State :=
   { st with locks := (id, l) :: st.locks.filter (·.1 != id) }
 
+/-- GOAWAY sites of the read loop (written from the read loop's own goroutine) -/
+def readLoopSites : List String :=
+  ["want-cont", "stray-cont", "window increment of 0", "invalid frame", "invalid stream id",
+   "ping is carrying a stream id", "clients can't send push_promise frames", "ext-in-block", "frame-error"]
+
+/-- One step in which the read loop forwarded a HEADERS frame that asks for a new stream and then, on a later frame of
+the same octets, wrote a GOAWAY of its own: in the real server the two goroutines race — either the stream loop gets
+there first (the stream counts, the GOAWAY names it) or the GOAWAY does (the stream is refused). Both are right; the
+serial model only knows the first. Such a step is not compared and ends what the model can say about the connection. -/
+def racyStep (s : Srv) (r : R) : Bool :=
+  (r.out.any fun o => match o with | .goAway _ _ tag => readLoopSites.contains tag | _ => false) &&
+  (r.s.lastID != s.lastID || r.s.lastRefused != s.lastRefused)
+
 /-- run one event through the full model and the lockstep models; returns the printed result -/
 def runEvent (st : State) (id : String) (s : Srv) (ev : Event) (show_ : Srv → Srv → Bool) : State × String :=
   let r := Server.stepR s ev
+  let r := if racyStep s r then { r with s := { r.s with undefined := true } } else r
   let l := st.getLock id
   let l' := l.step s ev r
   let st := (st.set id r.s).setLock id l'
